@@ -418,6 +418,7 @@ class Engine:
             self.emit('lemma', st, step, clause=nm + '.step')
         for nm, base, step, concl in self.lemma_terms(c, A, self.ghost):
             st.pc.append(concl)
+            st.facts['lemma:' + nm] = concl
         self.pre_pc = list(st.pc)
         self.pre_axioms = list(gax)
         n_before = len(self.vcs)
@@ -513,8 +514,16 @@ class Engine:
                 if lems:
                     st = st.copy()
                     st.pc = st.pc + [concl for _, _, _, concl in lems]
-            for name, g in c.ensures(L, A, N, R, self.ghost, V):
-                self.emit('post', st, g, clause=name)
+            for clause_ in c.ensures(L, A, N, R, self.ghost, V):
+                name, g = clause_[0], clause_[1]
+                hy = None
+                if len(clause_) > 2 and clause_[2] is not None and L.sym:
+                    # local proof of a postcondition from named facts only (plus the ghost axioms)
+                    missing = [u for u in clause_[2] if u not in st.facts]
+                    if missing:
+                        raise Unsupported('postcondition %s uses unknown facts %s (known: %s)' % (name, missing, sorted(st.facts)[:60]))
+                    hy = list(self.pre_axioms) + [st.facts[u] for u in clause_[2]]
+                self.emit('post', st, g, clause=name, hyps=hy)
             for exc, cond in (c.raises(L, A, self.ghost) or {}).items():
                 self.emit('post', st, L.Not(cond), clause='must-raise-%s' % exc)
             mods = set(c.modifies)
